@@ -100,23 +100,44 @@ pub fn array_eq_across_producers() {
     kani::cover!(x == y);
 }
 
-/// tuples and structs: field-wise; different arity / different key sets are unequal, in both
-/// directions; nesting (array inside tuple inside struct)
+/// tuples: element-wise; different arity unequal in both directions
 #[kani::proof]
-#[kani::unwind(6)]
+#[kani::unwind(5)]
 #[kani::stub(alloc::fmt::format, crate::verif_common::stub_format)]
-pub fn tuple_struct_eq() {
-    crate::verif_model::set_order(0);
+pub fn tuple_eq() {
     let (x, y, p, q): (i64, i64, i64, i64) = (kani::any(), kani::any(), kani::any(), kani::any());
     let t1 = tup(vec![Variable::Int(x), Variable::Int(y)]);
     let t2 = tup(vec![Variable::Int(p), Variable::Int(q)]);
     assert!((t1 == t2) == (x == p && y == q));
+    assert!((t2 == t1) == (x == p && y == q));
     assert!(t1 != tup(vec![Variable::Int(x)]));
     assert!(tup(vec![Variable::Int(x)]) != t1);
+    // nesting: array (with different stored types) inside a tuple
+    let n1 = tup(vec![arr_t(Type::Any, vec![Variable::Int(x)]), Variable::Void]);
+    let n2 = tup(vec![arr_t(Type::Int, vec![Variable::Int(p)]), Variable::Void]);
+    assert!((n1 == n2) == (x == p));
+    kani::cover!(x == p && y == q);
+}
+/// structs: field-wise by key whatever the insertion order; key sets must agree, in both directions
+#[kani::proof]
+#[kani::unwind(5)]
+#[kani::stub(alloc::fmt::format, crate::verif_common::stub_format)]
+pub fn struct_eq() {
+    crate::verif_model::set_order(0);
+    let (x, y, p, q): (i64, i64, i64, i64) = (kani::any(), kani::any(), kani::any(), kani::any());
     let s1 = strct(vec![("a", Variable::Int(x)), ("b", Variable::Int(y))]);
     let s2 = strct(vec![("b", Variable::Int(q)), ("a", Variable::Int(p))]);
     assert!((s1 == s2) == (x == p && y == q));
     assert!((s2 == s1) == (x == p && y == q));
+    kani::cover!(x == p && y == q);
+}
+#[kani::proof]
+#[kani::unwind(5)]
+#[kani::stub(alloc::fmt::format, crate::verif_common::stub_format)]
+pub fn struct_key_sets_must_agree() {
+    crate::verif_model::set_order(1);
+    let (x, y): (i64, i64) = (kani::any(), kani::any());
+    let s1 = strct(vec![("a", Variable::Int(x)), ("b", Variable::Int(y))]);
     // key sets differ: unequal in both directions, also when the shared fields agree
     let sub = strct(vec![("a", Variable::Int(x))]);
     assert!(sub != s1);
@@ -124,11 +145,7 @@ pub fn tuple_struct_eq() {
     assert!(strct(vec![]) != sub && sub != strct(vec![]));
     let renamed = strct(vec![("a", Variable::Int(x)), ("c", Variable::Int(y))]);
     assert!(s1 != renamed && renamed != s1);
-    // nesting
-    let n1 = strct(vec![("f", tup(vec![arr_t(Type::Any, vec![Variable::Int(x)]), Variable::Void]))]);
-    let n2 = strct(vec![("f", tup(vec![arr_t(Type::Int, vec![Variable::Int(p)]), Variable::Void]))]);
-    assert!((n1 == n2) == (x == p));
-    kani::cover!(x == p && y == q);
+    kani::cover!(true);
 }
 
 /// values of different kinds are unequal; scalars by value; floats by IEEE; strings by content
@@ -192,34 +209,30 @@ pub fn identity_for_cells_and_functions() {
 }
 
 /// symmetry, reflexivity (no NaN inside) and `!=` is the negation of `==`, on mixed shapes
+fn sym_pair(a: &Variable, b: &Variable) {
+    let e1 = a == b;
+    let e2 = b == a;
+    assert!(e1 == e2);
+    assert!((a != b) == !e1);
+}
 #[kani::proof]
-#[kani::unwind(8)]
+#[kani::unwind(5)]
 #[kani::stub(alloc::fmt::format, crate::verif_common::stub_format)]
 pub fn symmetry_reflexivity_negation() {
     crate::verif_model::set_order(0);
     let (x, p): (i64, i64) = (kani::any(), kani::any());
     let f: f64 = kani::any();
-    let vals = [
-        arr_t(Type::Any, vec![Variable::Int(x), Variable::Float(f)]),
-        arr_t(Type::Int | Type::Float, vec![Variable::Int(p), Variable::Float(f)]),
-        tup(vec![Variable::Int(x), arr_t(Type::Never, vec![])]),
-        tup(vec![Variable::Int(p), arr_t(Type::Int, vec![])]),
-    ];
-    let mut i = 0;
-    while i < vals.len() {
-        let mut j = 0;
-        while j < vals.len() {
-            let e1 = vals[i] == vals[j];
-            let e2 = vals[j] == vals[i];
-            assert!(e1 == e2);
-            assert!((vals[i] != vals[j]) == !e1);
-            j += 1;
-        }
-        if i >= 2 || !f.is_nan() {
-            assert!(vals[i] == vals[i]);
-        }
-        i += 1;
+    let a = arr_t(Type::Any, vec![Variable::Int(x), Variable::Float(f)]);
+    let b = arr_t(Type::Int | Type::Float, vec![Variable::Int(p), Variable::Float(f)]);
+    let c = tup(vec![Variable::Int(x), arr_t(Type::Never, vec![])]);
+    let d = tup(vec![Variable::Int(p), arr_t(Type::Int, vec![])]);
+    sym_pair(&a, &b);
+    sym_pair(&c, &d);
+    sym_pair(&a, &c);
+    if !f.is_nan() {
+        assert!(a == a);
     }
+    assert!(c == c && d == d);
     kani::cover!(x == p);
     kani::cover!(f.is_nan());
 }
